@@ -341,6 +341,8 @@ impl Buffer {
             let Some(line) = layer.lines.get_mut(i as usize) else {
                 continue;
             };
+            #[cfg(icy_engine_verif)]
+            crate::verif::tick(line.chars.len() as u64);
             if line.chars.len() > start_column {
                 let end_column = (end_column.max(0) as usize).min(line.chars.len());
                 if end_column > start_column {
@@ -376,6 +378,8 @@ impl Buffer {
             let Some(line) = layer.lines.get_mut(i as usize) else {
                 continue;
             };
+            #[cfg(icy_engine_verif)]
+            crate::verif::tick(line.chars.len() as u64);
             if line.chars.len() > start_column {
                 if start_column <= end_column {
                     let mut n = count as usize;
